@@ -6,7 +6,7 @@ import Proofs.ScsvDomain
 /-! # C16 — SCSV save/read round trip is lossless; invalid schemas and data are refused
 
 Theorems about `Scsv.save` / `Scsv.read` (the model of `pydrex.io.save_scsv` / `read_scsv` at /repo
-commit 3a0fc08, tied to the code by the correspondence check K29–K31: file bytes and parsed tuples
+commit cc8cd84, tied to the code by the correspondence check K29–K31: file bytes and parsed tuples
 compared exactly on every run). All statements are for every number of fields, every number of
 rows, every delimiter / missing marker / fill / cell in the stated classes.
 
@@ -27,10 +27,8 @@ three keys, at least one field, a delimiter neither equal to nor contained in th
 identifier field names, known types, and a fill on every field that is not string/boolean. -/
 theorem validate_iff (s : Schema) : validate s = .ok true ↔ SchemaValid s := Scsv.validate_iff s
 
-/-- the validation never raises anything but the `KeyError` of `field["name"]`, and only when some
-field has no name (this path is NOT the SCSV error: see `fault_field_without_name_is_KeyError`) -/
-theorem validate_raises_only_KeyError (s : Schema) (e : Err) (h : validate s = .error e) :
-    e = .key ∧ ∃ fs, s.fields = some fs ∧ ∃ f ∈ fs, f.name = none := Scsv.validate_error s e h
+/-- the validation never raises (a field without `name` is reported as invalid since commit c90071b) -/
+theorem validate_never_raises (s : Schema) : ∃ b, validate s = .ok b := validate_total s
 
 /-! ## layer 1/2: cell codec and fill substitution -/
 
@@ -134,12 +132,11 @@ theorem domain_checked_roundtrip (E : FloatExt) (hE : FloatSpec E) (s : Schema) 
 /-! ## single faults (as the code is written) -/
 
 /-- **single_fault_rejected, schema level** – every schema that is not valid (missing key, no fields,
-non-identifier name, unknown type, numeric field without fill, delimiter equal to or contained in
-the missing marker) whose fields all carry a name is refused with the SCSV error, for every data
-set with at least one column. -/
+field without name, non-identifier name, unknown type, numeric field without fill, delimiter equal to
+or contained in the missing marker) is refused with the SCSV error, for every data set with at least
+one column (and with no column at all: `single_fault_no_columns`). -/
 theorem single_fault_invalid_schema (E : FloatExt) (s : Schema) (data : List (List Val)) (hne : data ≠ [])
-    (hnames : ∀ fs, s.fields = some fs → ∀ f ∈ fs, f.name ≠ none) (hinv : ¬ SchemaValid s) :
-    save E s data = .error .scsv := save_invalid_schema E s data hne hnames hinv
+    (hinv : ¬ SchemaValid s) : save E s data = .error .scsv := save_invalid_schema E s data hne hinv
 
 theorem fault_missing_key (s : Schema) (h : s.delimiter = none ∨ s.missing = none ∨ s.fields = none) :
     ¬ SchemaValid s := invalid_missing_key s h
@@ -148,9 +145,9 @@ theorem fault_delimiter_equals_missing (s : Schema) (d : Str) (h1 : s.delimiter 
     ¬ SchemaValid s := invalid_delimiter_eq_missing s d h1 h2
 theorem fault_delimiter_in_missing (s : Schema) (d m : Str) (h1 : s.delimiter = some d) (h2 : s.missing = some m)
     (h : isInfix d m = true) : ¬ SchemaValid s := invalid_delimiter_in_missing s d m h1 h2 h
-/-- non-identifier name, unknown type, or numeric field without fill -/
+/-- field without name, non-identifier name, unknown type, or numeric field without fill -/
 theorem fault_bad_field (s : Schema) (fs : List Field) (f : Field) (h1 : s.fields = some fs) (hf : f ∈ fs)
-    (h : (∃ n, f.name = some n ∧ isIdentifier n = false) ∨ typeOf f.typeName = none ∨
+    (h : f.name = none ∨ (∃ n, f.name = some n ∧ isIdentifier n = false) ∨ typeOf f.typeName = none ∨
       (∃ t, typeOf f.typeName = some t ∧ t ≠ .str ∧ t ≠ .bool ∧ f.fill = none)) : ¬ SchemaValid s :=
   invalid_field s fs f h1 hf h
 
@@ -193,32 +190,23 @@ theorem row_unparseable_cell (E : FloatExt) (hE : FloatSpec E) (m : Str) (fs : L
     saveRowCells E m (row ++ d :: rowPost) (colSpecs (fs ++ f :: post)) = .error .scsv :=
   saveRowCells_unparseable E hE m fs row h f d post rowPost hd
 
-/-- AS THE CODE IS WRITTEN: no data columns at all is `IndexError`, not the SCSV error (known finding) -/
-theorem fault_no_columns_is_IndexError (E : FloatExt) (s : Schema) : save E s [] = .error .index :=
+/-- **wrong column count, no columns at all** – refused whatever the schema is (`IndexError` before commit cc8cd84) -/
+theorem single_fault_no_columns (E : FloatExt) (s : Schema) : save E s [] = .error .scsv :=
   save_no_columns E s
-
-/-- AS THE CODE IS WRITTEN: a field without `name` (after valid fields) is `KeyError`, not the SCSV
-error (known finding) -/
-theorem fault_field_without_name_is_KeyError (E : FloatExt) (d m : Str) (pre post : List Field) (f : Field)
-    (c0 : List Val) (cs : List (List Val)) (hlen : ∀ c ∈ cs, c.length = c0.length)
-    (hdm : d ≠ m) (hinf : isInfix d m = false) (hpre : ∀ g ∈ pre, FieldValid g) (hf : f.name = none) :
-    save E ⟨some d, some m, some (pre ++ f :: post)⟩ (c0 :: cs) = .error .key :=
-  save_field_without_name E d m pre post f c0 cs hlen hdm hinf hpre hf
 
 /-! ## which exception classes can escape (for EVERY schema, data set and file text) -/
 
-/-- `save_scsv` ends – whatever the schema and the data are – in the SCSV error, `KeyError` (field
-without name), `TypeError` (delimiter that is not one character; `np.isnan` of a string cell in a
-float/complex column), `IndexError` (no data columns) or outside the model; never in a bare
-`ValueError`. -/
+/-- `save_scsv` ends – whatever the schema and the data are – in the SCSV error, `TypeError` (delimiter
+that is not one character; `np.isnan` of a string cell in a float/complex column) or outside the
+model; never in a bare `ValueError`, `KeyError` or `IndexError`. -/
 theorem save_exception_classes (E : FloatExt) (s : Schema) (data : List (List Val)) (e : Err)
-    (h : save E s data = .error e) : e ∈ [Err.scsv, .key, .type, .index, .unmodelled] :=
+    (h : save E s data = .error e) : e ∈ [Err.scsv, .type, .unmodelled] :=
   save_errIn E s data e h
 
-/-- `read_scsv` (commit 3a0fc08) ends – whatever the text of the file is – in the SCSV error, the YAML
-error, `TypeError`, `KeyError`, `StopIteration` (no CSV lines), `ValueError`, or outside the model … -/
+/-- `read_scsv` ends – whatever the text of the file is – in the SCSV error, the YAML error, `TypeError`
+(empty header, multi-character delimiter), `StopIteration` (no CSV lines), `ValueError`, or outside the model … -/
 theorem read_exception_classes (E : FloatExt) (txt : Str) (e : Err) (h : read E txt = .error e) :
-    e ∈ [Err.scsv, .yaml, .type, .key, .csv, .stopIteration, .value, .unmodelled] :=
+    e ∈ [Err.scsv, .yaml, .type, .csv, .stopIteration, .value, .unmodelled] :=
   readLines_errIn E _ e h
 
 /-- … and the only `ValueError` left is the one of `collections.namedtuple` rejecting the field names
@@ -254,9 +242,6 @@ theorem terse_result_is_complete (s : Str) (sch : Schema) (h : parseTerse s = .o
       ∀ f ∈ fs, f.name.isSome = true ∧ (∃ t, typeOf f.typeName = some t) ∧ f.fill.isSome = true :=
   parseTerse_shape s sch h
 
-/-- hence `_validate_scsv_schema` never raises on the result of `parse_scsv_schema` -/
-theorem terse_validate_total (s : Str) (sch : Schema) (h : parseTerse s = .ok sch) : ∃ b, validate sch = .ok b :=
-  validate_parseTerse_total s sch h
 
 /-- **parsed fields**: the terse notation `d<delim>m<missing>:name(code:fill:unit)…` denotes exactly the
 schema it spells, for every delimiter without `m`/`:`, missing marker without `:`, and every non-empty
